@@ -6,6 +6,7 @@ import (
 	"errors"
 	"fmt"
 	"math"
+	"sort"
 	"time"
 
 	"0chain.net/core/config"
@@ -607,8 +608,14 @@ func (c *Chain) updateState(ctx context.Context,
 		ue[u.UserID] = u
 	}
 
-	for _, e := range ue {
-		c.emitUserEvent(sctx, e)
+	// emit in a fixed order, map iteration order must not leak into the event list
+	userIDs := make([]string, 0, len(ue))
+	for id := range ue {
+		userIDs = append(userIDs, id)
+	}
+	sort.Strings(userIDs)
+	for _, id := range userIDs {
+		c.emitUserEvent(sctx, ue[id])
 	}
 
 	// commit transaction
